@@ -27,8 +27,8 @@ done
 touch refactors/RESULTS.tsv
 /venv/bin/python - $SCR/results refactors/RESULTS.tsv <<'PY' 2>/dev/null
 import sys
-new=dict(l.rstrip("\n").split("\t") for l in open(sys.argv[1]) if "\t" in l)
-old=dict(l.rstrip("\n").split("\t") for l in open(sys.argv[2]) if "\t" in l)
+new=dict(l.rstrip("\n").split("\t")[:2] for l in open(sys.argv[1]) if "\t" in l)
+old=dict(l.rstrip("\n").split("\t")[:2] for l in open(sys.argv[2]) if "\t" in l)
 old.update(new)
 open(sys.argv[2],"w").write("".join(f"{k}\t{v}\n" for k,v in sorted(old.items())))
 PY
